@@ -158,3 +158,38 @@ Fixpoint diag_txs (c : tcase) (l : list (tx * tobs)) (s : state) : list (option 
        first_diff 0 (obs (c_addrs c) (c_keys c) (c_hashes c) (c_slots c) (dat s2)) o_post) :: diag_txs c r s2
   end.
 Definition diag (c : tcase) := diag_txs c (c_txs c) (init_state (c_init c)).
+
+(* ---------- block level: the real per-block loop (VMExecutor.Execute) against exec_tx per transaction ----------
+   The loop adds ledger effects the frame model does not have (fees, gas charge, nonces, miner record), so only the
+   scratch state and the logs are compared: access list, storage and transient storage of the listed accounts, and
+   the log list of every transaction hash, after each transaction (observed as the end state of the block prefix). *)
+Definition bobs (addrs keys hashes : list N) (d : data) : list N :=
+  flat_map (fun a => b2n (acl d a) :: map (fun k => state_of d a k) keys ++ map (fun k => tstor d a k) keys) addrs
+  ++ flat_map (fun h => N.of_nat (length (logs d h))
+                        :: flat_map (fun l => [l_addr l; l_topic l; l_tx l; l_txindex l; l_index l]) (logs d h)) hashes.
+
+Record bcase := BCase {
+  b_progs : list prog;
+  b_init : list iacct;
+  b_addrs : list N;
+  b_keys : list N;
+  b_hashes : list N;
+  b_txs : list (tx * list N) }.
+
+Fixpoint run_block (c : bcase) (l : list (tx * list N)) (s : state) : bool :=
+  match l with
+  | [] => true
+  | (t, o_post) :: r =>
+      let '(_, _, s') := exec_tx (b_progs c) fuel0 t s in
+      list_eqb (bobs (b_addrs c) (b_keys c) (b_hashes c) (dat s')) o_post && run_block c r s'
+  end.
+
+Definition check_block (c : bcase) : bool := run_block c (b_txs c) (init_state (b_init c)).
+
+Fixpoint diag_block (c : bcase) (l : list (tx * list N)) (s : state) : list (option (N * N * N)) :=
+  match l with
+  | [] => []
+  | (t, o_post) :: r =>
+      let '(_, _, s') := exec_tx (b_progs c) fuel0 t s in
+      first_diff 0 (bobs (b_addrs c) (b_keys c) (b_hashes c) (dat s')) o_post :: diag_block c r s'
+  end.
